@@ -277,10 +277,29 @@ pub fn c02_large(alg: Algorithm, inp: &LargeInput) -> Result<(bool, u64, u64), S
     Ok((st.n_equal > 0 && st.n_change > 0, tr, ops_fp(&ops)))
 }
 
+/// Line diff of the items written as lines of a caller-side, case-insensitive DiffableStr: old
+/// lines are "v<item>", new lines alternate "V<item>" / "v<item>", so lines that are equal for
+/// the type mostly differ in their bytes (above 100 lines the text diff maps lines to integers).
+fn ci_line_ops(alg: Algorithm, old: &[u32], new: &[u32]) -> Result<Vec<DiffOp>, String> {
+    let to: String = old.iter().map(|x| format!("v{}\n", x)).collect();
+    let tn: String = new.iter().enumerate().map(|(i, x)| format!("{}{}\n", if i % 2 == 0 { "V" } else { "v" }, x)).collect();
+    subject(|| {
+        use crate::instr::Ci;
+        TextDiff::configure().algorithm(alg).diff_lines(Ci::new(to.as_bytes()), Ci::new(tn.as_bytes())).ops().to_vec()
+    })
+    .map_err(|p| format!("TextDiff over a case-insensitive DiffableStr: panic: {}", p))
+}
+
 pub fn c09_large(alg: Algorithm, inp: &LargeInput) -> Result<(bool, u64, u64), String> {
     let (old, new) = (&inp.old[..], &inp.new[..]);
     let ops = cap32(alg, old, new)?;
     normal_form(&ops, old, new).map_err(|e| format!("capture_diff: {}", e))?;
+    if old.len() + new.len() <= 1200 {
+        let cops = ci_line_ops(alg, old, new)?;
+        validate_ops(&cops, old, 0..old.len(), new, 0..new.len(), false)
+            .and_then(|_| normal_form(&cops, old, new))
+            .map_err(|e| format!("TextDiff::ops (diff_lines over a case-insensitive DiffableStr, lines differing in case only): {} [ops: {:?}]", e, cops))?;
+    }
     let (_, pinf) = cap32_deadline(alg, old, new, u64::MAX)?;
     let mut tr = ops.len() as u64;
     for k in expiry_points(pinf) {
@@ -317,6 +336,17 @@ pub fn c03_large(alg: Algorithm, inp: &LargeInput) -> Result<(bool, u64, u64), S
     if (r - expect).abs() > 1e-6 {
         return Err(format!("ratio {} but 2*LCS/(N+M) = {}", r, expect));
     }
+    if n + m <= 1200 {
+        let cops = ci_line_ops(alg, old, new)?;
+        let sc = validate_ops(&cops, old, 0..n, new, 0..m, false)
+            .map_err(|e| format!("TextDiff::ops (diff_lines over a case-insensitive DiffableStr): {}", e))?;
+        if sc.deleted + sc.inserted != want || sc.equal_items != l {
+            return Err(format!(
+                "TextDiff::ops (diff_lines over a case-insensitive DiffableStr, lines differing in case only), {}: {} deleted {} inserted {} equal; a shortest script has {} changes and {} equal items",
+                alg_name(alg), sc.deleted, sc.inserted, sc.equal_items, want, l
+            ));
+        }
+    }
     Ok((l > 0 && l < n.min(m), base.len() as u64 + ops.len() as u64, ops_fp(&ops)))
 }
 
@@ -334,6 +364,22 @@ pub fn c11_large(alg: Algorithm, inp: &LargeInput) -> Exact {
         })
         .map_err(|p| format!("panic: {}", p))?;
         validate_ops(&ops, old, 0..n, new, 0..m, exact).map_err(|e| format!("capture_diff: {}", e))?;
+        // the same input embedded at non-zero range starts
+        {
+            let (po, pn) = (3usize, 5usize);
+            let fo = large::embed32(old, po, 2, new);
+            let fnw = large::embed32(new, pn, 2, old);
+            let sub = subject(|| {
+                similar::verif::take_swaps();
+                similar::verif::set_swap_repair(repair);
+                let ops = similar::capture_diff(alg, &fo[..], po..po + n, &fnw[..], pn..pn + m);
+                swaps += similar::verif::take_swaps();
+                ops
+            })
+            .map_err(|p| format!("capture_diff on sub-ranges: panic: {}", p))?;
+            validate_ops(&sub, &fo, po..po + n, &fnw, pn..pn + m, exact)
+                .map_err(|e| format!("capture_diff on sub-ranges old {:?} new {:?}: {}", po..po + n, pn..pn + m, e))?;
+        }
         // the text-diff path (integer mapping above 100 tokens)
         let so: Vec<String> = old.iter().map(|x| format!("{}\n", x)).collect();
         let sn: Vec<String> = new.iter().map(|x| format!("{}\n", x)).collect();
